@@ -1,6 +1,12 @@
 /- C02 — the occurrence decisions of the code generator against the language of the
 content model: property theorems (only).
 
+The model of `UpdateAttributesEffectiveChoice` is the handler after the repair `fix:
+UpdateAttributesEffectiveChoice treats a merged group as a symmetrical sequence only when every
+attr of the group belongs to that sequence`: the handlers are total (`occurs : List Site → List
+Site`); before the repair `occurs` was partial (`none` = `AssertionError` in
+`reset_symmetrical_choices`, reachable from a valid schema, see `assertWitness_occurs`).
+
 A generated field that is **not a list** rejects a second occurrence of its element
 (`ParserError: Unknown property`), and a field **without default** (`min ≥ 1`, not a list)
 rejects a document that lacks the element. `occurs (sites p)` is what the three handlers
@@ -46,7 +52,7 @@ theorem exP_matches : Matches exP [['a'], ['b']] :=
 
 /-- the fields the handlers produce for the running example: `a` required, `b` optional,
 `c` and `d` lists -/
-theorem exP_occurs : occurs (sites exP) = some [
+theorem exP_occurs : occurs (sites exP) = [
     { name := ['a'], index := 0, min := 1, max := 1, path := [⟨.s, 1, 1, 1⟩],
       choice := none, sequence := some 1 },
     { name := ['b'], index := 1, min := 0, max := 1, path := [⟨.s, 1, 1, 1⟩, ⟨.c, 2, 0, 1⟩],
@@ -57,13 +63,12 @@ theorem exP_occurs : occurs (sites exP) = some [
       path := [⟨.s, 1, 1, 1⟩, ⟨.s, 3, 0, maxsize⟩], choice := none, sequence := some 1 }] := by
   decide
 
-/-- **No AssertionError, one field per element, document order**: with pairwise distinct
-element names the three handlers succeed and keep exactly one field per element particle. -/
+/-- **One field per element, document order**: with pairwise distinct element names the three
+handlers keep exactly one field per element particle. -/
 theorem occurs_distinct (p : Particle) (hd : distinctNames p = true) :
-    ∃ ss, occurs (sites p) = some ss ∧ ss.map (·.name) = names p := by
+    (occurs (sites p)).map (·.name) = names p := by
   have hd' : (names p).Nodup := of_decide_eq_true hd
-  refine ⟨_, occurs_sites p hd', ?_⟩
-  rw [← calculatePaths_eq_map, calculatePaths_names, sites_names]
+  rw [occurs_sites p hd', ← calculatePaths_eq_map, calculatePaths_names, sites_names]
 
 example : distinctNames exP = true := by decide
 
@@ -72,52 +77,52 @@ for element `s.name` is not a list, no word of the content model contains `s.nam
 once. (No well-formedness of the occurrence ranges is needed.) -/
 theorem nonlist_sound (p : Particle) (hd : distinctNames p = true)
     (w : List Str) (hw : Matches p w)
-    (ss : List Site) (h : occurs (sites p) = some ss) (s : Site) (hs : s ∈ ss)
+    (s : Site) (hs : s ∈ occurs (sites p))
     (hl : s.isList = false) : w.count s.name ≤ 1 :=
-  nonlist_sound_core p (of_decide_eq_true hd) w hw ss h s hs hl
+  nonlist_sound_core p (of_decide_eq_true hd) w hw s hs hl
 
 /-- the hypotheses are satisfiable: field `b` of the running example, word `[a, b]` -/
 example : List.count ['b'] [['a'], ['b']] ≤ 1 :=
-  nonlist_sound exP (by decide) _ exP_matches _ exP_occurs
+  nonlist_sound exP (by decide) _ exP_matches
     { name := ['b'], index := 1, min := 0, max := 1, path := [⟨.s, 1, 1, 1⟩, ⟨.c, 2, 0, 1⟩],
-      choice := some 2, sequence := some 1 } (by decide) (by decide)
+      choice := some 2, sequence := some 1 } (by rw [exP_occurs]; decide) (by decide)
 
 /-- **A required non-list field always finds its element exactly once**: if the field has
 `min ≥ 1` (no default, so the strict parser insists on it) and is not a list, every word of
 the content model contains the element exactly once. -/
 theorem required_sound (p : Particle) (hd : distinctNames p = true) (hwf : wf p = true)
     (w : List Str) (hw : Matches p w)
-    (ss : List Site) (h : occurs (sites p) = some ss) (s : Site) (hs : s ∈ ss)
+    (s : Site) (hs : s ∈ occurs (sites p))
     (hr : s.min ≥ 1) (hl : s.isList = false) : w.count s.name = 1 :=
-  required_sound_core p (of_decide_eq_true hd) hwf w hw ss h s hs hr hl
+  required_sound_core p (of_decide_eq_true hd) hwf w hw s hs hr hl
 
 /-- the hypotheses are satisfiable: field `a` of the running example, word `[a, b]` -/
 example : List.count ['a'] [['a'], ['b']] = 1 :=
-  required_sound exP (by decide) (by decide) _ exP_matches _ exP_occurs
+  required_sound exP (by decide) (by decide) _ exP_matches
     { name := ['a'], index := 0, min := 1, max := 1, path := [⟨.s, 1, 1, 1⟩],
-      choice := none, sequence := some 1 } (by decide) (by decide) (by decide)
+      choice := none, sequence := some 1 } (by rw [exP_occurs]; decide) (by decide) (by decide)
 
 /-- **Converse sanity — list fields are needed**: if the occurrence ranges are non-empty (`wf`)
 and every choice has at least one alternative (`live`; otherwise the language may be empty),
 a field the generator makes a list does occur twice in some word of the content model. -/
 theorem list_needed (p : Particle) (hd : distinctNames p = true) (hwf : wf p = true)
     (hlive : live p = true)
-    (ss : List Site) (h : occurs (sites p) = some ss) (s : Site) (hs : s ∈ ss)
+    (s : Site) (hs : s ∈ occurs (sites p))
     (hl : s.isList = true) : ∃ w, Matches p w ∧ 2 ≤ w.count s.name :=
-  list_needed_core p (of_decide_eq_true hd) hwf hlive ss h s hs hl
+  list_needed_core p (of_decide_eq_true hd) hwf hlive s hs hl
 
 /-- the hypotheses are satisfiable: field `c` of the running example -/
 example : ∃ w, Matches exP w ∧ 2 ≤ w.count ['c'] :=
-  list_needed exP (by decide) (by decide) (by decide) _ exP_occurs
+  list_needed exP (by decide) (by decide) (by decide)
     { name := ['c'], index := 2, min := 0, max := maxsize, path := [⟨.s, 1, 1, 1⟩, ⟨.c, 2, 0, 1⟩],
-      choice := some 2, sequence := some 1 } (by decide) (by decide)
+      choice := some 2, sequence := some 1 } (by rw [exP_occurs]; decide) (by decide)
 
 /-! ## 2. the full statement fails: two sites with the same name -/
 
 /-- the statement of `nonlist_sound` without the restriction to distinct names -/
 def NonlistSound : Prop :=
-  ∀ (p : Particle) (w : List Str) (ss : List Site) (s : Site), wf p = true → Matches p w →
-    occurs (sites p) = some ss → s ∈ ss → s.isList = false → w.count s.name ≤ 1
+  ∀ (p : Particle) (w : List Str) (s : Site), wf p = true → Matches p w →
+    s ∈ occurs (sites p) → s.isList = false → w.count s.name ≤ 1
 
 /-- `((a | b), (a | c))` -/
 def badP : Particle :=
@@ -141,7 +146,7 @@ theorem badP_matches : Matches badP [['a'], ['a']] :=
           exact choiceOnce_cons.2 (Or.inl ha)), rfl⟩,
         seqOnce_nil.2 rfl, rfl⟩, rfl⟩), rfl⟩
 
-theorem badP_occurs : occurs (sites badP) = some [
+theorem badP_occurs : occurs (sites badP) = [
     { name := ['a'], index := 0, min := 0, max := 1, path := [⟨.s, 1, 1, 1⟩, ⟨.c, 2, 1, 1⟩],
       choice := some 2, sequence := some 1 },
     { name := ['b'], index := 1, min := 0, max := 1, path := [⟨.s, 1, 1, 1⟩, ⟨.c, 2, 1, 1⟩],
@@ -156,11 +161,37 @@ theorem badP_occurs : occurs (sites badP) = some [
 so `a` becomes a single optional non-list field — but `<a/><a/>` is schema-valid. -/
 theorem nonlist_sound_false : ¬ NonlistSound := by
   intro h
-  have := h badP [['a'], ['a']] _
+  have := h badP [['a'], ['a']]
     { name := ['a'], index := 0, min := 0, max := 1, path := [⟨.s, 1, 1, 1⟩, ⟨.c, 2, 1, 1⟩],
       choice := some 2, sequence := some 1 }
-    (by decide) badP_matches badP_occurs (by decide) (by decide)
+    (by decide) badP_matches (by rw [badP_occurs]; decide) (by decide)
   exact absurd this (by decide)
+
+/-! ## 2b. the handlers are total: the former `AssertionError` -/
+
+/-- `((b | c | d)? | (a, a, d)?)` — a valid schema on which generation died before the repair:
+the merged group of `d … d` contains attrs of the sequence (`a`, `d`) and an attr outside of any
+sequence (`d` of the inner choice) -/
+def assertWitness : Particle :=
+  .choice 1 1 [.choice 0 1 [.elem ['b'] 1 1, .elem ['c'] 1 1, .elem ['d'] 1 1],
+               .seq 0 1 [.elem ['a'] 1 1, .elem ['a'] 1 1, .elem ['d'] 1 1]]
+
+/-- **Repaired** (`fixed: … AssertionError in reset_symmetrical_choices`): the group is not taken
+for a symmetrical sequence, the class gets optional `b`, `c` and list fields `d`, `a`. -/
+theorem assertWitness_occurs : occurs (sites assertWitness) = [
+    { name := ['b'], index := 0, min := 0, max := 1, path := [⟨.c, 1, 1, 1⟩, ⟨.c, 2, 0, 1⟩],
+      choice := some 1, sequence := none },
+    { name := ['c'], index := 1, min := 0, max := 1, path := [⟨.c, 1, 1, 1⟩, ⟨.c, 2, 0, 1⟩],
+      choice := some 1, sequence := none },
+    { name := ['d'], index := 2, min := 0, max := 2, path := [⟨.c, 1, 1, 1⟩, ⟨.c, 2, 0, 1⟩],
+      choice := some (-1), sequence := none },
+    { name := ['a'], index := 3, min := 0, max := 2, path := [⟨.c, 1, 1, 1⟩, ⟨.s, 3, 0, 1⟩],
+      choice := some (-1), sequence := some 3 }] := by
+  decide
+
+/-- the fields of the witness are sound although its names repeat: `d` and `a` are lists -/
+example : (occurs (sites assertWitness)).all (fun s => s.isList || (s.name != ['a'] && s.name != ['d'])) = true := by
+  decide
 
 /-! ## 3. named model groups (`xs:group`) and `xs:all`
 
@@ -417,18 +448,17 @@ computed from the extension's content model `pb`) never sees its element twice i
 derived type's content model. -/
 theorem extension_nonlist_sound (pa pb : Particle) (hd : (names pa ++ names pb).Nodup)
     (w : List Str) (hw : Matches (.seq 1 1 [pa, pb]) w)
-    (sa sb : List Site) (ha : occurs (sites pa) = some sa) (hb : occurs (sites pb) = some sb)
-    (s : Site) (hs : s ∈ sa ++ sb) (hl : s.isList = false) : w.count s.name ≤ 1 :=
-  extension_nonlist_core pa pb hd w hw sa sb ha hb s hs hl
+    (s : Site) (hs : s ∈ occurs (sites pa) ++ occurs (sites pb)) (hl : s.isList = false) :
+    w.count s.name ≤ 1 :=
+  extension_nonlist_core pa pb hd w hw s hs hl
 
 /-- **Extension: a required non-list field finds its element exactly once** -/
 theorem extension_required_sound (pa pb : Particle) (hd : (names pa ++ names pb).Nodup)
     (hwa : wf pa = true) (hwb : wf pb = true)
     (w : List Str) (hw : Matches (.seq 1 1 [pa, pb]) w)
-    (sa sb : List Site) (ha : occurs (sites pa) = some sa) (hb : occurs (sites pb) = some sb)
-    (s : Site) (hs : s ∈ sa ++ sb) (hr : s.min ≥ 1) (hl : s.isList = false) :
-    w.count s.name = 1 :=
-  extension_required_core pa pb hd hwa hwb w hw sa sb ha hb s hs hr hl
+    (s : Site) (hs : s ∈ occurs (sites pa) ++ occurs (sites pb)) (hr : s.min ≥ 1)
+    (hl : s.isList = false) : w.count s.name = 1 :=
+  extension_required_core pa pb hd hwa hwb w hw s hs hr hl
 
 /-- base `(x)`, extension `(y?)` -/
 def extA : Particle := .seq 1 1 [.elem ['x'] 1 1]
@@ -452,25 +482,24 @@ theorem ext_matches : Matches (.seq 1 1 [extA, extB]) [['x']] :=
           rfl⟩,
         seqOnce_nil.2 rfl, rfl⟩, rfl⟩), rfl⟩
 
-theorem extA_occurs : occurs (sites extA) = some [
+theorem extA_occurs : occurs (sites extA) = [
     { name := ['x'], index := 0, min := 1, max := 1, path := [⟨.s, 1, 1, 1⟩], sequence := some 1 }] := by
   decide
 
-theorem extB_occurs : occurs (sites extB) = some [
+theorem extB_occurs : occurs (sites extB) = [
     { name := ['y'], index := 0, min := 0, max := 1, path := [⟨.s, 1, 1, 1⟩], sequence := some 1 }] := by
   decide
 
 /-- the hypotheses are satisfiable: the inherited field `x`, word `[x]` -/
 example : List.count ['x'] [['x']] = 1 :=
-  extension_required_sound extA extB (by decide) (by decide) (by decide) _ ext_matches _ _
-    extA_occurs extB_occurs
+  extension_required_sound extA extB (by decide) (by decide) (by decide) _ ext_matches
     { name := ['x'], index := 0, min := 1, max := 1, path := [⟨.s, 1, 1, 1⟩], sequence := some 1 }
-    (by decide) (by decide) (by decide)
+    (by rw [extA_occurs, extB_occurs]; decide) (by decide) (by decide)
 
 example : List.count ['y'] [['x']] ≤ 1 :=
-  extension_nonlist_sound extA extB (by decide) _ ext_matches _ _ extA_occurs extB_occurs
+  extension_nonlist_sound extA extB (by decide) _ ext_matches
     { name := ['y'], index := 0, min := 0, max := 1, path := [⟨.s, 1, 1, 1⟩], sequence := some 1 }
-    (by decide) (by decide)
+    (by rw [extA_occurs, extB_occurs]; decide) (by decide)
 
 /-! ## 6. substitution groups
 
